@@ -200,7 +200,10 @@ def main(tier):
     rand = gen_dynamic.generate(seed() * 6007 + 19, n, "choose")
     # random modular programs whose compose blocks choose / shuffle over sub-scenarios and draw run-time values
     nested = gen_dynamic.generate_nested(seed() * 3571 + 19, 30 if tier == "quick" else 300, tables=2, picks=True)
-    cases = core + rand + nested
+    # choose / shuffle whose items' guards RAISE a rejection (the guards of all items are evaluated)
+    import c13
+
+    cases = core + rand + nested + c13.guard_rejection_core(picks=True)
     rows = c12.run_batch(ck, cases, need_actions=["Setup", "BehaviorResume", "Pick", "Finish"], run_real=False)
     texts = [r[1] for r in rows]
     reals = pmap(_law_real, list(zip(cases, texts)))
